@@ -7,3 +7,10 @@ package cache
 func (c *syncMap) deleteEntry(key, _ interface{}) {
 	c.data.Delete(key)
 }
+
+// replaceEntry updates the entry in place, sync.Map.CompareAndSwap is not available before go1.20.
+func (c *syncMap) replaceEntry(_ interface{}, entry, updated *TraitEntry) bool {
+	entry.E = updated.E
+
+	return true
+}
